@@ -309,20 +309,56 @@ def configs(tier):
     return [(s, p, pol) for s in SETS for p in PROTS for pol in POLICIES]
 
 
+LEGACY_DICT_INPUTS = ['50% of $x$', 'a_b^c & {d} #1 ~e \\f', 'caf\u00e9 \u20ac5', '%', '$', '{', '}}', '\\',
+                      '\u00e9%\n$', 'x\u221e{']
+
+
+def check_legacy_dict_history(res):
+    """pylatexenc-1 style customisation: the module-level dictionary latexencode.utf82latex is
+    edited (that changes what the old utf8tolatex() does).  The encoders built from the built-in
+    rule sets afterwards still neutralise every active character: the dictionary is a copy (the
+    source says why: "so that the user can modify the module-level utf82latex dict without
+    influencing the behavior of the new unicode_to_latex() routines")"""
+    from pylatexenc import latexencode
+    tables()
+    d = latexencode.utf82latex
+    for ch in '$%\\{}&#_^~':
+        try:
+            del d[ord(ch)]
+        except KeyError:
+            pass
+    d[0xE9] = '\u00e9'
+    d[0x20AC] = '\\euro'
+    _ENC.clear()
+    try:
+        for s in LEGACY_DICT_INPUTS:
+            for cfg in configs(None):
+                check(s, cfg, res, {'s': s, 'cfg': list(cfg), 'history': 'legacy-dict'})
+            res.nontriv_distinct()
+    finally:
+        _ENC.clear()
+    res.label('after-legacy-dict-customisation')
+
+
 def plan(tier, seed):
     L, nmix = (3, 4800) if tier == 'quick' else (4, 200000)
     shards = [('base', L, k) for k in range(NSHARDS)]
     shards += [('singles', k) for k in range(NSHARDS)]
     shards += [('mix', nmix // NSHARDS, seed * 1000 + k) for k in range(NSHARDS)]
+    shards += [('legacydict',)]
     return {'shards': shards, 'bounds': {'base_len': L, 'base_alphabet': len(BASE),
                                          'configurations': len(configs(tier)), 'mixtures': nmix},
             'required_classes': ['base', 'single', 'mixture', 'fail-raised', 'active-pair',
-                                 'boundary-code-point', 'nfc-changes-input']}
+                                 'boundary-code-point', 'nfc-changes-input',
+                                 'after-legacy-dict-customisation']}
 
 
 def run_shard(shard, res):
     kind_ = shard[0]
     cfgs = configs(None)
+    if kind_ == 'legacydict':
+        check_legacy_dict_history(res)
+        return
     if kind_ == 'base':
         _, L, k = shard
         for toks in soups.enum_tokens(BASE, L, k, NSHARDS):
@@ -382,10 +418,16 @@ def run_shard(shard, res):
 
 
 def check_case(case, res):
+    if case.get('history') == 'legacy-dict':
+        check_legacy_dict_history(res)
+        return
     check(case['s'], tuple(case['cfg']), res, case)
 
 
 def minimise(case, key):
+    if case.get('history'):
+        return case
+
     def pred(t):
         r = Result()
         check_case(dict(case, s=''.join(t)), r)
